@@ -140,11 +140,33 @@ template <typename T> static void real_run(int family, long long N, unsigned lon
         .a("binErrUlps", bins).emit();
 }
 
+// very many contributions to the same bin within a single call: 1 followed by 4096 values of a quarter ulp of 1 - every single one of
+// them is below half an ulp of the running sum, together they are 2048 ulp per call
+template <typename T> static void many_adds(long long N)
+{
+    int const e = std::numeric_limits<T>::digits + 1;   // values are integers * 2^-e
+    long long const m = 4096;
+    T const tiny = std::ldexp(T(1), -e);
+    auto f = [&](hep::mc_point<T> const&, hep::projector<T>& pr) {
+        pr.add(0, T(0.25), T(1));
+        for (long long k = 0; k != m; ++k) pr.add(0, T(0.25), tiny);
+        return T(1);
+    };
+    auto r = hep::plain(hep::make_integrand<T>(f, 1, hep::make_dist_params<T>(2, T(), T(1), "many")), std::vector<std::size_t>{(std::size_t) N},
+        hep::make_plain_chkpt<T>(), hep::callback<hep::default_plain_chkpt<T>>(hep::callback_mode::silent));
+    auto const& res = r.results()[0];
+    __int128 exact = (__int128) N * (((__int128) 1 << e) + m), main_exact = (__int128) N << e;
+    T s = res.distributions()[0].results()[0].sum() * T(0.5);
+    ev("SumCheck").s("T", type_name<T>::get()).s("family", "many-adds-per-call").i("N", N).i("errUlps", err_ulps<T>(res.sum(), main_exact, main_exact, e))
+        .a("binErrUlps", std::vector<long long>{err_ulps<T>(s, exact, exact, e)}).emit();
+}
+
 template <typename T> static void real_family(rng& g, bool thorough)
 {
     std::vector<long long> Ns{1, 1000, 100000};
     if (thorough) { Ns.push_back(3000000); Ns.push_back(10000000); }
     for (int f = 0; f != 5; ++f) for (long long N : Ns) real_run<T>(f, N, g.next());
+    many_adds<T>(thorough ? 4000 : 800);
 }
 
 int main(int argc, char** argv)
